@@ -13,9 +13,12 @@ visit, so two dumps are equal exactly when values, structure and the sharing pat
 namespace BeyondVerif.Drv.C15
 open BeyondVerif BeyondVerif.Drv BeyondVerif.Heap
 
+/-- raw rendering (inside symbolic values): clones carry the address of their marker cell -/
 def frStr : Fr → String
-  | .reg n => n
-  | .hill => "Hill"
+  | .reg n 0 => n
+  | .reg n g => s!"{n}'{g}"
+  | .hill 0 => "Hill"
+  | .hill g => s!"Hill'{g}"
   | .tnw => "TNW"
   | .qsw => "QSW"
 
@@ -29,6 +32,21 @@ def valStr : Val → String
 structure DS where
   seen : List (Nat × Nat) := []
   next : Nat := 0
+  clones : List (Nat × Nat) := []   -- marker address of a cloned Frame object ↦ number by first visit
+
+/-- rendering in a dump: cloned Frame objects are numbered by first visit (identity matters, not the address) -/
+def dumpFr (st : DS) (f : Fr) : String × DS :=
+  let numbered (st : DS) (g : Nat) : Nat × DS :=
+    match st.clones.lookup g with
+    | some k => (k, st)
+    | none => (st.clones.length + 1, { st with clones := (g, st.clones.length + 1) :: st.clones })
+  match f with
+  | .reg n 0 => (n, st)
+  | .reg n g => let (k, st) := numbered st g; (s!"{n}'{k}", st)
+  | .hill 0 => ("Hill", st)
+  | .hill g => let (k, st) := numbered st g; (s!"Hill'{k}", st)
+  | .tnw => ("TNW", st)
+  | .qsw => ("QSW", st)
 
 def sortItems (items : Items) : Items :=
   items.mergeSort (fun a b => !(b.1 < a.1))
@@ -47,13 +65,13 @@ partial def dumpRef (h : Heap) (st : DS) (r : Ref) : String × DS :=
   | .tok n => (s!"t{n}", st)
   | .none => ("~", st)
   | .form f => (s!"f:{f}", st)
-  | .frame f => (s!"F:{frStr f}", st)
+  | .frame f => let (fs, st) := dumpFr st f; (s!"F:{fs}", st)
   | .addr a =>
     match st.seen.lookup a with
     | some id => (s!"#{id}", st)
     | none =>
       let id := st.next
-      let st : DS := { seen := (a, id) :: st.seen, next := id + 1 }
+      let st : DS := { st with seen := (a, id) :: st.seen, next := id + 1 }
       let many (st : DS) (rs : List Ref) : List String × DS :=
         rs.foldl (fun (acc : List String × DS) r => let (s, st) := dumpRef h acc.2 r; (acc.1 ++ [s], st)) ([], st)
       match h[a]? with
@@ -71,14 +89,16 @@ partial def dumpRef (h : Heap) (st : DS) (r : Ref) : String × DS :=
           !(kv.1 = "maneuvers" && (match kv.2 with | .addr l => h[l]? = some (.list []) | _ => false)))
         let (ss, st) := many st (items.map (·.2))
         (s!"D{id}" ++ "{" ++ joinWith "," ((items.map (·.1)).zipWith (fun k s => k ++ "=" ++ s) ss) ++ "}", st)
-      | some (.sv o own b d) =>
+      | some (.sv o b d) =>
         let (sb, st) := dumpRef h st (.addr b)
         let (sd, st) := dumpRef h st (.addr d)
-        (s!"S{id}({if o then "O" else "V"},{if own then 1 else 0},{sb},{sd})", st)
-      | some (.cov true v fr orb ofr) =>
+        (s!"S{id}({if o then "O" else "V"},{sb},{sd})", st)
+      | some (.cov v fr orb ofr) =>
+        let (sf, st) := dumpFr st fr
+        let (sof, st) := dumpFr st ofr
         let (so, st) := dumpRef h st (.addr orb)
-        (s!"C{id}(<{valStr v}>,{frStr fr},{frStr ofr},{so})", st)
-      | some (.cov false v _ _ _) => (s!"C{id}(!,<{valStr v}>)", st)
+        (s!"C{id}(<{valStr v}>,{sf},{sof},{so})", st)
+      | some .clone => (s!"?clone{id}", st)
       | none => (s!"?{id}", st)
 
 def dumpAll (h : Heap) (env : List Nat) : String :=
@@ -105,7 +125,7 @@ def opNew (st : St) (k : Nat) (orbit : Bool) (form : String) (frame : Fr) (hasMe
     else (h, [])
   let items := items ++ [("date", .tok (100 + k)), ("form", .form form), ("frame", .frame frame)]
   let (h, d) := alloc h (.dict items)
-  let (h, a) := alloc h (.sv false false b d)
+  let (h, a) := alloc h (.sv false b d)
   let (h, a) : Heap × Nat :=
     if orbit then
       let (h, p) := alloc h (.prop 0)
